@@ -36,6 +36,7 @@ const (
 
 var imports = map[string][]importSpec{
 	"C02": {
+		{"C11", `^C11\.encode$`, ``, "the cEMI part of a frame is encoded field by field where the decoder looks for it: an encoder that rewrites a control flag on its own does not give the value back"},
 		{"C01", `^C01\.c$`, ``, "a decoded value equals the encoded one only as long as it owns its storage: a value that aliases the decoder's input changes when the buffer is reused"},
 		{"C01", `^C01\.b$`, ``, "the decoder accepts the whole encoding: the consumed length it reports lies within the input"},
 		{"C11", `^C11\.decode$`, ``, "the cEMI part of a frame decodes back: length-prefixed additional info, transport unit fields and lengths, fixed field order"},
@@ -74,9 +75,10 @@ var imports = map[string][]importSpec{
 		{"C07", `^C07\.scale$`, ``, "encoder and decoder scale by inverse factors"},
 	},
 	"C07": {
-		{"C08", `^C08\.range$`, `IsValid`, "encoders gate on IsValid: a validity predicate that rejects an in-range value makes it unencodable, one that accepts an out-of-range value yields an encoding the decoder rejects"},
+		{"C08", `^C08\.range$`, `IsValid|DPT_10001|DPT_11001`, "encoders gate on IsValid: a validity predicate that rejects an in-range value makes it unencodable, one that accepts an out-of-range value yields an encoding the decoder rejects"},
 	},
 	"C09": {
+		{"C04", `^C04\.R5$`, ``, "after a reconnect the sequence numbers of both directions restart at 0: the inbound counter lives and dies with one call of the processing function"},
 		{"C02", `^C02\.dispatch$`, `knx/knxnet\.(Conn|Disc)`, "connect, connection-state and disconnect frames reach the client as what they are"},
 		{"C02", `^C02\.layout$`, `knxnet\.(ConnRes|ConnReq|ConnStateRes|ConnStateReq|DiscReq|DiscRes)`, "connect, connection-state and disconnect frames are decoded as the gateway sent them (a connect response is only usable with its endpoint decoded under status 0)"},
 		{"C02", `^C02\.(layout|dispatch)$`, `^knxnet\.UnpackHeader|^knxnet\.Unpack `, "every frame is received through the header decoder and the service dispatcher"},
